@@ -7,6 +7,7 @@ TARGETS = {
     "t_queries": dict(variant="asan", srcs=["t_queries.cc"], libs=RC),
     "t_io": dict(variant="asan", srcs=["t_io.cc"], libs=RC),
     "t_faults": dict(variant="fuzzrel", srcs=["t_faults.cc"], libs=RC),
+    "t_tet": dict(variant="asan", srcs=["t_tet.cc"], libs=RC),
     "t_handles": dict(variant="opt", srcs=["t_handles.cc"], libs="-lpthread"),
 }
 
@@ -46,7 +47,7 @@ CHECKS = {
         level_note="Bounded by program length and mesh size; the renumbering rule is the documented one.",
     ),
     "C03": dict(
-        kind="rc_program", target="t_kernel", level="exploration",
+        kind="rc_program", target="t_kernel", level="exploration", also=dict(target="t_tet", workers=3, quick_max_success=400, thorough_max_success=6000, len_scale=0.4),
         quick=dict(workers=16, max_success=10000, max_size=100, len_scale=0.7, timeout=600),
         thorough=dict(workers=16, max_success=100000, max_size=100, len_scale=2.0, timeout=3600),
         rule=("cases = random kernel histories (as C01/C02) interleaved with creation of shared/private/persistent "
@@ -61,7 +62,7 @@ CHECKS = {
         level_text=("Model-based: property values are tracked per entity identity (uid) independent of handles and "
                     "compared after every step of random histories in all deletion modes; covers bool specialisation, "
                     "half-entity sides, defaults of new slots, clear(), positions."),
-        level_note="Tet edge collapse is covered by the C15 target; attribs are thin wrappers over these properties.",
+        level_note="3 of the 16 workers run the tetrahedral harness (t_tet) with id C03: cell and vertex property values must follow their entities through collapse_edge; attribs are thin wrappers over these properties.",
     ),
     "C04": dict(
         kind="rc_program", target="t_kernel", level="exploration",
@@ -240,6 +241,26 @@ CHECKS = {
         technique="fault enumeration over generated files (truncation, byte substitution, chunk edits, stream failures) judged by an independent reference decoder",
         level_text="Exhaustive enumeration of single faults per generated file; the verdict 'inconsistent' comes from an independent strict decoder, not from the library.",
         level_note="Single faults only; multi-byte corruptions are left to the C07 fuzzers.",
+    ),
+    "C15": dict(
+        kind="rc_program", target="t_tet", level="exploration",
+        quick=dict(workers=16, max_success=400, max_size=100, len_scale=0.4, timeout=900),
+        thorough=dict(workers=16, max_success=6000, max_size=100, len_scale=1.0, timeout=3600),
+        rule=("cases = random tetrahedral-mesh histories: add_cell(4 vertices) / add_cell(vector) with and without topology "
+              "check, tets glued on boundary halffaces, rings / open fans of 3-5 tets around an edge in generated order, "
+              "vertex stars, rejected adds (wrong valence, occupied halfface), deletions of every kind, garbage "
+              "collection, collapse_edge on edges satisfying the link condition (computed on the full simplicial "
+              "complex), all four deletion modes. After every op: shape invariants; for EVERY cell x halfface x "
+              "halfedge/vertex get_cell_vertices (4 forms), opposite vertex/halfface inverse, tet vertex iterator "
+              "(incl. lap protocol), TetTopology/TriangleTopology for every (halfface,start) choice and all 12+32 "
+              "labels, get_label inverse; collapse: oriented-cell multiset in vertex identities == former cells "
+              "without both endpoints with a->b, returned handle designates b. non-trivial = a case ending with >=3 "
+              "live tets or containing a collapse; distinct = distinct program hash"),
+        assumptions=["vertex identity is tracked through unique positions (C03 is checked separately)",
+                     "adds onto an occupied halfface are only issued with topology check (domain: one cell per halfface)", "gated on the C01 oracle"],
+        technique="rapidcheck tet histories + oriented simplicial-complex model + exhaustive per-cell label sweep",
+        level_text="Model-based (oriented tets as vertex-identity tuples) and exhaustive per-state query sweep for the tetrahedral kernel.",
+        level_note="split_edge/split_face are protected members and not covered.",
     ),
 }
 
